@@ -7,6 +7,7 @@
 -/
 import QSP.Proofs.EvalC
 import QSP.Proofs.LAlg
+import QSP.Proofs.L2Kit
 import Mathlib.LinearAlgebra.Matrix.Notation
 import Mathlib.Tactic.FinCases
 import Mathlib.Tactic.LinearCombination
@@ -20,17 +21,14 @@ namespace QSP
 noncomputable def evQ (p : LP ℚ) (θ : ℝ) : ℂ :=
   FW (p.coefs.map (fun q : ℚ => ((q : ℝ) : ℂ))) p.dmin (exp ((θ : ℂ) * I))
 
-noncomputable def rotC (c s : ℂ) : Matrix (Fin 2) (Fin 2) ℂ := !![c, I * s; I * s, c]
-
-noncomputable def wC (θ : ℝ) : Matrix (Fin 2) (Fin 2) ℂ :=
-  !![exp ((θ : ℂ) * I), 0; 0, exp (-((θ : ℂ) * I))]
+-- `rotC`, `wC` : see `QSP/Proofs/L2Kit.lean`
 
 /-- the 2×2 complex matrix denoted by a rational Low-algebra element at e^{iθ} -/
 noncomputable def evMat (g : LA ℚ) (θ : ℝ) : Matrix (Fin 2) (Fin 2) ℂ :=
   !![evQ g.I θ, I * evQ g.X θ; I * evQ g.X (-θ), evQ g.I (-θ)]
 
 /-- diagonal matrix `diag(z(θ), z(-θ))` of a model polynomial (`LAlg * LPoly`) -/
-noncomputable def diagC (p : LP ℚ) (θ : ℝ) : Matrix (Fin 2) (Fin 2) ℂ :=
+noncomputable def diagP (p : LP ℚ) (θ : ℝ) : Matrix (Fin 2) (Fin 2) ℂ :=
   !![evQ p θ, 0; 0, evQ p (-θ)]
 
 /-! ### the evaluation ring homomorphism `ℚ[T;T⁻¹] →+* ℂ` -/
@@ -139,7 +137,7 @@ theorem evMat_mul {g h r : LA ℚ} (hg : g.WF) (hh : h.WF) (e : g.mul h = .ok r)
     linear_combination (-(evQ g.X (-θ) * evQ h.X θ)) * hII
 
 theorem evMat_mulR {g r : LA ℚ} {p : LP ℚ} (hg : g.WF) (hp : p.WF) (e : g.mulR p = .ok r)
-    (θ : ℝ) : evMat r θ = evMat g θ * diagC p θ := by
+    (θ : ℝ) : evMat r θ = evMat g θ * diagP p θ := by
   obtain ⟨hI, hX, -⟩ := LA.mulR_ok hg hp e
   have eI : ∀ t : ℝ, evQ r.I t = evQ g.I t * evQ p t := by
     intro t; simp only [evQ_eq, hI, map_mul]
@@ -147,14 +145,14 @@ theorem evMat_mulR {g r : LA ℚ} {p : LP ℚ} (hg : g.WF) (hp : p.WF) (e : g.mu
     intro t; simp only [evQ_eq, hX, map_mul, evalQ_invert]
   apply Matrix.ext; intro i j
   fin_cases i <;> fin_cases j <;>
-    simp [evMat, diagC, eI, eX, Matrix.mul_apply, Fin.sum_univ_two] <;> ring
+    simp [evMat, diagP, eI, eX, Matrix.mul_apply, Fin.sum_univ_two] <;> ring
 
 theorem evMat_rotation (c : ℚ × ℚ) (θ : ℝ) :
     evMat (LA.rotation c) θ = rotC ((c.1 : ℝ) : ℂ) ((c.2 : ℝ) : ℂ) := by
   simp only [evMat, LA.rotation, evQ_const, rotC]
 
-theorem diagC_w (θ : ℝ) : diagC (LP.w : LP ℚ) θ = wC θ := by
-  simp only [diagC, wC, evQ_w, exp_neg_theta, Complex.exp_neg]
+theorem diagP_w (θ : ℝ) : diagP (LP.w : LP ℚ) θ = wC θ := by
+  simp only [diagP, wC, evQ_w, exp_neg_theta, Complex.exp_neg]
 
 /-! ### `unitary_from_angles` -/
 
@@ -175,7 +173,7 @@ theorem fromAnglesAux_eval (cs : List (ℚ × ℚ)) (acc g : LA ℚ) (hacc : acc
     obtain ⟨h1, h2⟩ := ih b bNZ h
     refine ⟨?_, h2⟩
     rw [h1, List.foldl_cons, evMat_mul aNZ.wf (WF_rotation c) hb, evMat_mulR hacc.wf WF_w ha,
-      evMat_rotation, diagC_w, Matrix.mul_assoc]
+      evMat_rotation, diagP_w, Matrix.mul_assoc]
 
 /-- on a non-empty list the model never fails and returns a well-formed element -/
 theorem fromAngles_returns (c : ℚ × ℚ) (cs : List (ℚ × ℚ)) :
